@@ -10,6 +10,16 @@ ASSUMPTIONS = ["lstat values as ground truth", "keys are always selected (ORDER 
 POOL = 8
 
 
+def _pipeline_conformance(ctx, tier, seed):
+    from driver import pipeline_conf
+    return pipeline_conf.run(ctx, tier, seed, 'MC_C08', None, 300)
+
+
+def conformance(tier, seed):
+    # white-box: the writer / accept events of real runs of these scenarios are replayed through Pipeline.tla
+    return [dict(name="Pipeline", run=_pipeline_conformance)]
+
+
 def generators(tier, seed):
     return [dict(module="MC_C08", workers=2)]
 
